@@ -695,6 +695,13 @@ func writeEvidence(ck *Check, tier string, r *Result, wall time.Duration, unknow
 		cov["samples"] = []any{"(no sample recorded)"}
 	}
 	if ck.Level == "model_checking" {
+		// a check without an explicit state count explores one history / schedule per execution
+		if r.States == 0 {
+			r.States = r.Executions
+		}
+		if r.Transitions == 0 {
+			r.Transitions = r.Executions
+		}
 		cov["states"] = r.States
 		cov["transitions"] = r.Transitions
 		// every state/transition is produced by executing the real (instrumented) implementation;
